@@ -1,6 +1,8 @@
 #!/usr/bin/env python3
 """apply a one-line edit to a scratch copy of /repo/src, run a check against it, delete the copy.
 usage: trybreak.py <prop> <relpath under src/pyhf> <old> <new> [extra check args]"""
+import os as _os
+_os.environ.setdefault('PYVC_EVIDENCE_DIR', '/tmp/pyvc_evidence_scratch')
 import os, shutil, subprocess, sys, tempfile
 prop, rel, old, new = sys.argv[1:5]
 extra = sys.argv[5:]
